@@ -22,6 +22,13 @@ func (sc *Scn) refs() map[int]bool {
 					walk(o.Conn.To)
 				}
 			}
+			for _, it := range vs.Items {
+				for _, o := range it.Exec {
+					if o.Nested > 0 {
+						walk(o.Nested - 1)
+					}
+				}
+			}
 		}
 		if n.Kind == "flow" {
 			walk(n.Start)
@@ -62,6 +69,15 @@ func compact(sc *Scn) *Scn {
 					o.Conn.Flow, o.Conn.From = remap[o.Conn.Flow], remap[o.Conn.From]
 					if o.Conn.To >= 0 {
 						o.Conn.To = remap[o.Conn.To]
+					}
+				}
+			}
+		}
+		for vi := range n.Visits {
+			for ii := range n.Visits[vi].Items {
+				for ai := range n.Visits[vi].Items[ii].Exec {
+					if o := &n.Visits[vi].Items[ii].Exec[ai]; o.Nested > 0 {
+						o.Nested = remap[o.Nested-1] + 1
 					}
 				}
 			}
@@ -108,6 +124,16 @@ func simplerOutcome(o Outcome) []Outcome {
 	if o.Both {
 		c := o
 		c.Both = false
+		out = append(out, c)
+	}
+	if o.Nested > 0 {
+		c := o
+		c.Nested = 0
+		out = append(out, c)
+	}
+	if o.Panic {
+		c := o
+		c.Panic = false
 		out = append(out, c)
 	}
 	if o.Conn != nil {
